@@ -2,9 +2,11 @@ package vm
 
 import (
 	"crypto/ed25519"
+	crand "crypto/rand"
 	"encoding/hex"
 	"errors"
 	"fmt"
+	"io"
 	"runtime"
 	"sort"
 	"strings"
@@ -184,13 +186,16 @@ func (m *VM) step(i int, op *Op) *Rec {
 		}
 		body = func() {
 			rnd := NewSimRand(op.Ent)
+			rd := callerReader(rnd, op.Ent)
 			var bld biscuit.Builder
 			if op.RootID != nil {
-				bld = biscuit.NewBuilder(k.Priv, biscuit.WithRNG(rnd), biscuit.WithRootKeyID(*op.RootID))
+				bld = biscuit.NewBuilder(k.Priv, biscuit.WithRNG(rd), biscuit.WithRootKeyID(*op.RootID))
+			} else if rd == nil && i%2 == 0 {
+				bld = biscuit.NewBuilder(k.Priv)
 			} else {
-				bld = biscuit.NewBuilder(k.Priv, biscuit.WithRNG(rnd))
+				bld = biscuit.NewBuilder(k.Priv, biscuit.WithRNG(rd))
 			}
-			m.put(op.Out, &BldObj{Bld: bld, Key: op.A, RootID: op.RootID, Rand: rnd})
+			m.put(op.Out, &BldObj{Bld: bld, Key: op.A, RootID: op.RootID, Rand: rnd, Default: op.Ent.Default})
 		}
 	case "bldadd":
 		b := m.Bld(op.A)
@@ -211,6 +216,10 @@ func (m *VM) step(i int, op *Op) *Rec {
 			}
 			m.CurRand = b.Rand
 			b.Rand.Begin()
+			if b.Default {
+				defer useDefault(b.Rand)()
+				m.Probe("default_entropy_source")
+			}
 			tok, err := b.Bld.Build()
 			b.Builds++
 			rec.Err = errStr(err)
@@ -239,6 +248,12 @@ func (m *VM) step(i int, op *Op) *Rec {
 		body = func() {
 			rnd := NewSimRand(op.Ent)
 			m.CurRand = rnd
+			rd := callerReader(rnd, op.Ent)
+			if rd == nil {
+				defer useDefault(rnd)()
+		m.Probe("default_entropy_source")
+				m.Probe("default_entropy_source")
+			}
 			var tok *biscuit.Biscuit
 			var err error
 			tmp := &BldObj{}
@@ -247,21 +262,21 @@ func (m *VM) step(i int, op *Op) *Rec {
 				bbo := &BBObj{BB: biscuit.NewBlockBuilder(&datalog.SymbolTable{})}
 				if err = m.addToBB(bbo, op.Blk); err == nil {
 					tmp.Content = bbo.Content
-					tok, err = biscuit.New(rnd, k.Priv, &datalog.SymbolTable{}, bbo.BB.Build())
+					tok, err = biscuit.New(rd, k.Priv, &datalog.SymbolTable{}, bbo.BB.Build())
 				}
 			} else {
 				var bld biscuit.Builder
 				switch {
 				case len(op.Base) > 0 && op.RootID != nil:
 					st := datalog.SymbolTable(append([]string{}, op.Base...))
-					bld = biscuit.NewBuilder(k.Priv, biscuit.WithRNG(rnd), biscuit.WithRootKeyID(*op.RootID), biscuit.WithSymbols(&st))
+					bld = biscuit.NewBuilder(k.Priv, biscuit.WithRNG(rd), biscuit.WithRootKeyID(*op.RootID), biscuit.WithSymbols(&st))
 				case len(op.Base) > 0:
 					st := datalog.SymbolTable(append([]string{}, op.Base...))
-					bld = biscuit.NewBuilder(k.Priv, biscuit.WithRNG(rnd), biscuit.WithSymbols(&st))
+					bld = biscuit.NewBuilder(k.Priv, biscuit.WithRNG(rd), biscuit.WithSymbols(&st))
 				case op.RootID != nil:
-					bld = biscuit.NewBuilder(k.Priv, biscuit.WithRNG(rnd), biscuit.WithRootKeyID(*op.RootID))
+					bld = biscuit.NewBuilder(k.Priv, biscuit.WithRNG(rd), biscuit.WithRootKeyID(*op.RootID))
 				default:
-					bld = biscuit.NewBuilder(k.Priv, biscuit.WithRNG(rnd))
+					bld = biscuit.NewBuilder(k.Priv, biscuit.WithRNG(rd))
 				}
 				tmp.Bld = bld
 				if err = m.addToBuilder(tmp, op.Blk); err == nil {
@@ -649,7 +664,61 @@ func okClass(err error) string {
 	return "err"
 }
 
+// bulkOK: the block can go through the bulk entry point AddBlock(ParsedBlock), which stops at the
+// first duplicate fact where the one-by-one route skips it: no fact equal to an earlier one, no
+// set-valued term (set equality is not syntactic). The choice is a function of the content.
+func bulkOK(existing []ref.Pred, blk *ref.Block) bool {
+	if (len(blk.Facts)+2*len(blk.Rules)+len(blk.Checks))%3 != 1 {
+		return false
+	}
+	seen := map[string]bool{}
+	for _, f := range existing {
+		seen[f.Canon()] = true
+	}
+	for _, f := range blk.Facts {
+		for _, t := range f.Terms {
+			if t.K == ref.KSet {
+				return false
+			}
+		}
+		c := f.Canon()
+		if seen[c] {
+			return false
+		}
+		seen[c] = true
+	}
+	return true
+}
+
+func parsedBlock(blk *ref.Block) biscuit.ParsedBlock {
+	pb := biscuit.ParsedBlock{}
+	for _, f := range blk.Facts {
+		pb.Facts = append(pb.Facts, lower.Fact(f))
+	}
+	for _, r := range blk.Rules {
+		pb.Rules = append(pb.Rules, lower.Rule(r))
+	}
+	for _, c := range blk.Checks {
+		pb.Checks = append(pb.Checks, lower.Check(c))
+	}
+	return pb
+}
+
 func (m *VM) addToBuilder(b *BldObj, blk *ref.Block) error {
+	if bulkOK(b.Content.Facts, blk) {
+		m.Probe("bulk_add_block")
+		if err := b.Bld.AddBlock(parsedBlock(blk)); err != nil {
+			return err
+		}
+		b.Content.Facts = append(b.Content.Facts, blk.Facts...)
+		b.Content.Rules = append(b.Content.Rules, blk.Rules...)
+		b.Content.Checks = append(b.Content.Checks, blk.Checks...)
+		if blk.Context != "" {
+			b.Bld.SetContext(blk.Context)
+			b.Content.Context = blk.Context
+		}
+		return nil
+	}
 	for _, f := range blk.Facts {
 		if err := b.Bld.AddAuthorityFact(lower.Fact(f)); err != nil {
 			if errors.Is(err, biscuit.ErrDuplicateFact) {
@@ -679,6 +748,20 @@ func (m *VM) addToBuilder(b *BldObj, blk *ref.Block) error {
 }
 
 func (m *VM) addToBB(b *BBObj, blk *ref.Block) error {
+	if bulkOK(b.Content.Facts, blk) {
+		m.Probe("bulk_add_block")
+		if err := b.BB.AddBlock(parsedBlock(blk)); err != nil {
+			return err
+		}
+		b.Content.Facts = append(b.Content.Facts, blk.Facts...)
+		b.Content.Rules = append(b.Content.Rules, blk.Rules...)
+		b.Content.Checks = append(b.Content.Checks, blk.Checks...)
+		if blk.Context != "" {
+			b.BB.SetContext(blk.Context)
+			b.Content.Context = blk.Context
+		}
+		return nil
+	}
 	for _, f := range blk.Facts {
 		if err := b.BB.AddFact(lower.Fact(f)); err != nil {
 			if errors.Is(err, biscuit.ErrDuplicateFact) {
@@ -707,10 +790,33 @@ func (m *VM) addToBB(b *BBObj, blk *ref.Block) error {
 	return nil
 }
 
+// callerReader is the entropy source the simulated caller hands to the library: the simulated
+// source itself, or nothing at all (nil) when the plan says the caller relies on the default.
+func callerReader(rnd *SimRand, e *Entropy) io.Reader {
+	if e != nil && e.Default {
+		return nil
+	}
+	return rnd
+}
+
+// useDefault installs r as the process-wide default entropy source (crypto/rand.Reader; both
+// binaries are built with cryptocustomrand=1, so a nil reader handed to crypto/ed25519 reads it
+// too) and returns the function that puts the previous one back.
+func useDefault(r io.Reader) func() {
+	old := crand.Reader
+	crand.Reader = r
+	return func() { crand.Reader = old }
+}
+
 func (m *VM) doAppend(rec *Rec, op *Op, i int, t *TokObj, blk *biscuit.Block, content *ref.Block) {
 	rnd := NewSimRand(op.Ent)
 	m.CurRand = rnd
-	nt, err := t.B.Append(rnd, blk)
+	rd := callerReader(rnd, op.Ent)
+	if rd == nil {
+		defer useDefault(rnd)()
+		m.Probe("default_entropy_source")
+	}
+	nt, err := t.B.Append(rd, blk)
 	rec.Err = errStr(err)
 	rec.Class = okClass(err)
 	if errors.Is(err, biscuit.ErrSymbolTableOverlap) {
